@@ -124,4 +124,34 @@ PROPS["C17"] = {
     "assumptions": ["google/uuid v1.6.0 and time.Format behave as modelled outside the explored inputs"],
 }
 
+def nt_c16(lhs, impl):
+    f = lhs.split(" ")
+    if f[0] == "ecparams":
+        # (prime bytes length, base first byte+len, seed?, outcome)
+        return ("p", len(f[5]), f[10][:2], len(f[10]), f[8], impl.split(" ")[0], hash(f[1]) % 64)
+    return ("i", f[2], len(f[3]) // 64, impl[:12])
+
+PROPS["C16"] = {
+    "modules": ["WhatIs.Props.C16"],
+    "theorems": ["WhatIs.C16.table_is_nist", "WhatIs.C16.generators_on_curve", "WhatIs.C16.row_sound",
+                 "WhatIs.C16.paramsMatch_true", "WhatIs.C16.inferred_only_if_exact", "WhatIs.C16.match_total"],
+    "facts": {"curves.primeCurveCount": 4},
+    "nontrivial": nt_c16,
+    "rule": "for each of P-224/256/384/521 (constants from Go's crypto/elliptic, not from the repo table): genuine parameters "
+            "(uncompressed / compressed with the right sign, with and without seed), wrong compressed sign, malformed base points "
+            "(empty, infinity, hybrid, truncated, extended, swapped), single-bit flips of every component (every 7th bit quick, every bit "
+            "thorough), truncation/extension/emptying/swapping of components between curves; each also wrapped in EC PARAMETERS PEM, "
+            "SPKI and SEC1 containers and inspected as a file. distinct non-trivial = distinct (curve size, base form+length, seed, "
+            "outcome, DER hash bucket)",
+    "design_ref": "DESIGN.md §5 C16",
+    "level_text": "Proof: for ALL decoded ECParameters, a reported name implies prime, a, b, order equal the NIST domain of that name "
+                  "(regenerated table proved equal to Go-stdlib constants, generators proved on-curve) and the base octet string denotes G "
+                  "incl. the compressed sign; the matcher is total (no panic). Tied to the code by the regenerated table and a differential run.",
+    "level_note": "Trusted: Lean kernel; translator; encoding/asn1 decoding of ECParameters (oracle: the harness passes the library-decoded "
+                  "fields to the model); NIST constants as printed by Go's crypto/elliptic.",
+    "technique": "Lean 4 proof over a regenerated table (decide on 521-bit arithmetic + structural case analysis) + differential correspondence",
+    "trusted_base": ["encoding/asn1 Unmarshal into asn1struct.ECParameters (oracle)", "Go crypto/elliptic constants as the NIST reference"],
+    "assumptions": ["H-asn1: the decoded struct fields are what the DER encodes"],
+}
+
 NOT_CLAIMED = {}
